@@ -21,6 +21,9 @@ mod lexer;
 
 pub mod features;
 
+#[cfg(lace_verif)]
+pub mod verif;
+
 /// Amount of lines to show as context, each side of focus line (line containing span).
 pub const DIAGNOSTIC_CONTEXT_LINES: usize = 8;
 
